@@ -11,6 +11,7 @@ pub const M_B: u16 = 32; // begin of a control-flow body
 pub const M_A: u16 = 64; // opener of an anonymous routine body
 pub const M_T: u16 = 128; // opener of a type body
 pub const M_I: u16 = 256; // identifier spelled like a contextual keyword
+pub const M_Y: u16 = 512; // body statement of a control statement (no begin/end)
 
 #[derive(Debug, Clone, PartialEq)]
 pub struct GTok {
@@ -63,6 +64,7 @@ fn parse_marks(s: &str) -> u16 {
             'A' => M_A,
             'T' => M_T,
             'I' => M_I,
+            'Y' => M_Y,
             _ => panic!("bad mark {ch}"),
         };
     }
